@@ -126,7 +126,12 @@ def lzCheck (init : String) (evs : List String) : Option String := do
   match Linz.linearizable s0 events with
   | some w => pure s!"lin {showNatList w}"
   | none =>
-    if Linz.inconclusive s0 events then pure "inconclusive"
+    -- "not linearizable" is reported only on the strength of C08_notlin_verdict_sound: the search answered "not found" and
+    -- the event ids are distinct. Anything else (budget exhausted, a witness the independent check rejects, duplicate ids)
+    -- is no verdict.
+    let ids := events.map (·.id)
+    if Linz.inconclusive s0 events || (Linz.search (events.length + 1) s0 events).isSome || ids.eraseDups.length != ids.length then
+      pure "inconclusive"
     else pure (if Linz.searchLoose (events.length + 1) s0 events then "notlin cleanup-deleted-live-entry" else "notlin")
 
 /-- `fp racy`: the unprotected conflicting pairs the footprint table predicts, as `loc:signature`. -/
